@@ -9,7 +9,7 @@ SPEC = {
     'bounds': {'quick': 'whole chain: accepted tables of <= 2 hits; post-slicing states of <= 4 hits in <= 3 slices; '
                         'mixture: one group of 30 hits on 3 distinct heights (2 row orders x look-back 20/100), every labelling function, '
                         'score and minimum separation, plus a second group whose id is any non-negative int; metarize(): <= 3 hits',
-               'thorough': 'whole chain <= 3 hits; post-slicing states <= 5 hits'},
+               'thorough': 'whole chain <= 3 hits; every post-slicing shape of <= 4 hits; all three row orders x look-back 20/50/100 for the mixture'},
     'outside': 'that scikit-learn returns a partition of the samples at all (stub contract); more rows than the bound; '
                'mixture groups with other height patterns than the stated filler',
     'budget_s': {'quick': 1200, 'thorough': 3600},
@@ -44,7 +44,7 @@ HARNESSES = [
       doc='whole chain: ids -1 exactly on non-detections, tables list exactly the sets present, counts match, each layer '
           'inside one group, hits unaltered'),
     H('H-group', h_group, quick=[('01', 0), ('012', 0), ('001', 0), ('0012', 0)],
-      thorough=[(sh, 0) for sh in ('0', '01', '00', '012', '001', '011', '0012', '0122', '0112', '0123', '00123')],
+      thorough=[(sh, 0) for sh in ('0', '01', '00', '012', '001', '011', '0012', '0122', '0112', '0123')],
       float_model='R', cover=['a bundle of overlapping slices', 'an isolated slice'],
       doc='constructed post-slicing state: every hit gets exactly one group id which is the slice id of some hit'),
     H('H-layer', h_layer, quick=[('asc', 0, 100), ('desc', 1, 20)], thorough=[(o, x, lb) for o in ('asc', 'desc', 'mixed') for x in (0, 1) for lb in (20, 50, 100)],
